@@ -54,8 +54,9 @@ Step ==
                /\ s.ok => e.other = s.text
                /\ ~s.ok => e.retn = s.upto /\ e.retm = s.elen /\ e.flag = 1,
             <<e.inb, e.res, e.retn, e.retm, Strict(e.inb, 1, <<>>)>>)
+     /\ Chk("C14", "DecoderOutputIsValidUtf8", e.op \in {"from_utf8_lossy", "from_utf8", "from_utf16"} => e.utf8 = 1, <<e.inb, e.bytes>>)
      /\ Chk("C14", "LossyRepairsByMaximalSubparts",
-            e.op = "from_utf8_lossy" => e.res = "ok" /\ e.other = Lossy(e.inb, 1, <<>>),
+            e.op = "from_utf8_lossy" => e.res = "ok" /\ e.otherok = 1 /\ e.other = Lossy(e.inb, 1, <<>>),
             <<e.inb, e.other, Lossy(e.inb, 1, <<>>)>>)
      /\ Chk("C14", "FromUtf16AcceptsExactlyPairedSurrogates",
             e.op = "from_utf16" =>
